@@ -148,7 +148,7 @@ def check_keys(R, U):
             if io != mod:
                 R.mismatch(what, {"keys": repr(l)}, repr(io), repr(mod))
     R.traces += 2 * len(lst_cases)
-    # unravel_keys(*keys): natively the ONE-argument alias of unravel_key, under compile a tuple of unravelled keys (D1804)
+    # unravel_keys(*keys): the ONE-argument alias of unravel_key on both paths (repair D1804); other arities raise on both
     def pyval(v):
         return ["str", v] if isinstance(v, str) else (["tup"] + [pyval(x) for x in v] if isinstance(v, tuple) else repr(v))
     ucases = [[k] for k in trees(1)] + [[rand_tree(rng, 2)] for _ in range(200 if R.quick else 3000)] + lst_cases[:100]
@@ -161,7 +161,7 @@ def check_keys(R, U):
         R.count("unravel_keys:arity-1" if len(l) == 1 else "unravel_keys:other-arity")
         if not ((nat[0] == py[0]) and (nat[0] == "raise" or nat[1] == py[1])):
             R.oracle_fail("helpers:native-vs-python", {"helper": "unravel_keys", "keys": repr(l)},
-                          {"native": repr(nat), "python_branch": repr(py)}, {"helper": "unravel_keys", "defect": "native-alias-of-unravel_key"})
+                          {"native": repr(nat), "python_branch": repr(py)}, {"helper": "unravel_keys"})
         for impl, mod, what in ((nat, m[2 * i], "unravel-keys-cpp"), (py, m[2 * i + 1], "unravel-keys-py")):
             io = pyval(impl[1]) if impl[0] == "ok" else "raise"
             if io != mod:
@@ -382,16 +382,6 @@ def _first_divergence(F, shape, names, prog):
     return None
 
 
-def _strided_contiguous_leaf(F, shape, names, prefix):
-    """pattern of finding D1803: some leaf is_contiguous() although its last stride is not 1 (size-1 / empty strided dim)"""
-    try:
-        with F.Forced(False, count=False):
-            x = F.run_program(F.base_td(shape, names), prefix)
-        return any(v.is_contiguous() and len(v.stride()) > 0 and v.stride()[-1] != 1 for v in x.values(True, True))
-    except Exception:  # noqa: BLE001
-        return False
-
-
 def check_forced_programs(R, torch):
     from . import c18_forced as F
     rng = R.rng
@@ -422,15 +412,7 @@ def check_forced_programs(R, torch):
         n, e, c = _first_divergence(F, shape, names, prog)
         kind = F.divergence_kind(e, c)
         op = prog[n - 1][0]
-        sig = {"check": "forced-branch", "kind": kind}
-        if kind == "names-only":
-            sig["defect"] = "compile-drops-names"                    # D1801
-        elif kind == "compile-branch-raises:TypeError" and op == "to_dtype_pos":
-            sig["defect"] = "positional-dtype-or-tensor"             # D1802
-        elif kind == "compile-branch-raises:RuntimeError" and op == "consolidate" and _strided_contiguous_leaf(F, shape, names, prog[:n - 1]):
-            sig["defect"] = "consolidate-contiguous-with-last-stride-not-1"   # D1803
-        else:
-            sig["first_diverging_op"] = op
+        sig = {"check": "forced-branch", "kind": kind, "first_diverging_op": op}
         R.oracle_fail("programs:forced-branch", {"shape": list(shape), "names": names, "program": [[nm, list(a)] for nm, a in prog[:n]], "forced": True},
                       {"first_diverging_op": op, "eager": e, "compile_branch": c}, sig)
     R.extra["forced_branch_programs"] = nprog
@@ -474,7 +456,8 @@ def site_evidence(R, tr, hits):
 
 def check_programs_named(R, torch):
     """eager vs torch.compile on programs that use dimension names and the other C18-local operations; the observation
-    includes the names (finding D1801 is visible under real dynamo, not only with the forced flag)"""
+    includes the names (a recurrence of the repaired finding D1801 -- names dropped under compile -- is visible under real
+    dynamo, not only with the forced flag)"""
     from . import c18_forced as F
     import torch._dynamo
     rng = R.rng
@@ -509,9 +492,7 @@ def check_programs_named(R, torch):
         R.traces += 1
         if comp != eager:
             kind = F.divergence_kind(eager, comp if comp[0] == "ok" else ("raise", comp[1]))
-            sig = {"kind": "program", "first_op": prog[0][0]}
-            if kind == "names-only":
-                sig = {"kind": "program", "defect": "compile-drops-names"}
+            sig = {"kind": "program", "divergence": kind, "first_op": prog[0][0]}
             R.oracle_fail("programs:eager-vs-compile", {"shape": list(shape), "names": names, "program": [[n, list(a)] for n, a in prog], "named_ops": True},
                           {"eager": eager[1], "compiled": comp[1] if comp[0] == "ok" else "raise " + str(comp[1])}, sig)
 
